@@ -107,8 +107,8 @@ class _SecStream(Stream):
 
     def coq_case(self, c, o):
         msg = "None" if c.get("nil") else "(Some %s)" % C.cN(bytes.fromhex(c["msg"]))
-        return "(%s, %d, %s, (%d, %d, %d), %s, %s)" % (C.cbool(bool(c.get("dirty"))), c["alg"], C.cN(bytes.fromhex(c["key"])),
-                                                      c["count"], c["bearer"], c["dir"], msg, sres(o, self.field))
+        return "((%s, %d, %s, (%d, %d, %d), %s, %s) : sec_case)" % (C.cbool(bool(c.get("dirty"))), c["alg"], C.cN(bytes.fromhex(c["key"])),
+                                                                   c["count"], c["bearer"], c["dir"], msg, sres(o, self.field))
 
     def direct_check(self, c, o):
         if "harness_error" in o:
@@ -169,8 +169,8 @@ class Raw(Stream):
         return "bits-%s/%s" % (rel, "panic" if "panic" in o else "ok")
 
     def coq_case(self, c, o):
-        return "(%s, %s, (%d, %d, %d), %s, %d, %s)" % (C.cbool(bool(c.get("dirty"))), C.cN(bytes.fromhex(c["key"])), c["count"], c["bearer"],
-                                                      c["dir"], C.cN(bytes.fromhex(c["msg"])), c["length"], sres(o, self.field))
+        return "((%s, %s, (%d, %d, %d), %s, %d, %s) : raw_case)" % (C.cbool(bool(c.get("dirty"))), C.cN(bytes.fromhex(c["key"])), c["count"], c["bearer"],
+                                                                   c["dir"], C.cN(bytes.fromhex(c["msg"])), c["length"], sres(o, self.field))
 
 
 class Nea1Raw(Raw):
